@@ -259,7 +259,7 @@ func runC15Frames(cs CaseSpec) *CaseResult {
 	nw.DefaultOpts = opts
 	nw.GenesisNodes(int(cs.I("n", 4)), opts, nil)
 	rng := cs.rng("c15fr")
-	sp := ScheduleSpec{Steps: int(cs.I("steps", 250)), Shape: "uniform", SubmitProb: 0.5, TxKinds: 6, Joins: int(cs.I("joins", 1)), Leaves: int(cs.I("leaves", 0)), Simultaneous: cs.I("simultaneous", 0) == 1, EmptyProb: 0.05}
+	sp := ScheduleSpec{Steps: int(cs.I("steps", 250)), Shape: cs.Str("shape", "uniform"), SubmitProb: 0.5, TxKinds: 6, Joins: int(cs.I("joins", 1)), Leaves: int(cs.I("leaves", 0)), Simultaneous: cs.I("simultaneous", 0) == 1, EmptyProb: 0.05}
 	nw.Mons = []Monitor{NewMonEncoding()}
 	nw.RunSchedule(sp)
 	if nw.stopped {
@@ -268,6 +268,7 @@ func runC15Frames(cs CaseSpec) *CaseResult {
 	nw.FairCycles(10)
 	checked := 0
 	resetsDone := map[int]int{}
+	served := map[int]bool{}
 	for _, n := range nw.upReal() {
 		st := n.Core.Hg().Store
 		for i := st.LastBlockIndex(); i >= 0; i-- {
@@ -339,6 +340,62 @@ func runC15Frames(cs CaseSpec) *CaseResult {
 			if !bytes.Equal(fh1, fh4) {
 				res.violate("C15", "C15:frame-hash-depends-on-map-order", fmt.Sprintf("node %d round %d: frame hash changes when its maps are filled in another order", n.Idx, f.Round), nil)
 				return res
+			}
+			// a node that resets itself from this block and frame as received over
+			// the transport must afterwards hold, and serve, a frame that still
+			// hashes to the block's frame hash (once per round: honest nodes' frames
+			// are equal)
+			for pass := 0; pass < 2 && !served[f.Round]; pass++ {
+				if pass == 1 {
+					served[f.Round] = true
+				}
+				var blk hg.Block
+				var frm hg.Frame
+				if wireCopy(&out.Block, &blk) == nil && wireCopy(&out.Frame, &frm) == nil {
+					if pass == 1 {
+						// the same decoded frame in a slice with room to grow (how much room
+						// a decoder leaves is not part of the value it decoded)
+						room := 8
+						for _, r := range frm.Roots {
+							if r != nil {
+								room += len(r.Events)
+							}
+						}
+						frm.Events = append(make([]*hg.FrameEvent, 0, len(frm.Events)+room), frm.Events...)
+						res.count("encoding_resets_from_a_decoded_frame_whose_event_slice_has_room_to_grow", 1)
+					}
+					rs := hg.NewInmemStore(5000)
+					rh := hg.NewHashgraph(rs, func(*hg.Block) error { return nil }, quietLogger())
+					rh.Init(peers.NewPeerSet(clonePeers(nw.Genesis)))
+					if err := rh.Reset(&blk, &frm); err == nil {
+						res.count("encoding_frames_read_back_from_a_store_reset_from_the_transported_frame", 1)
+						res.max("encoding_max_events_in_a_frame_used_for_a_reset", int64(len(frm.Events)))
+						sf, err := rs.GetFrame(blk.RoundReceived())
+						var sfh []byte
+						if err == nil {
+							sfh, _ = sf.Hash()
+						}
+						var out2 bnet.FastForwardResponse
+						if err == nil {
+							// ... and as it would be served in turn
+							if wireCopy(&bnet.FastForwardResponse{Block: blk, Frame: *sf}, &out2) == nil {
+								sfh2, _ := out2.Frame.Hash()
+								if !bytes.Equal(sfh, sfh2) {
+									sfh = sfh2
+								}
+							}
+						}
+						if err != nil || !bytes.Equal(sfh, b.Body.FrameHash) {
+							res.violate("C15", "C15:frame-held-by-a-reset-node-no-longer-hashes-to-its-block",
+								fmt.Sprintf("node %d round %d: a store reset from the block and frame as received over the JSON transport holds a frame of round %d (%d events) whose hash is not the block's frame hash (read error: %v)", n.Idx, f.Round, blk.RoundReceived(), len(frm.Events), err), nil)
+							rs.Close()
+							return res
+						}
+					} else {
+						res.count("encoding_resets_refused", 1)
+					}
+					rs.Close()
+				}
 			}
 			// a node that resets itself from this block and frame (as received over
 			// the transport) derives the same membership facts as the sender,
@@ -420,6 +477,12 @@ func init() {
 				} else {
 					cs = append(cs, CaseSpec{Kind: "events", P: map[string]int64{"n": int64(2 + i%4), "events": 220, "cache": int64(120 + (i*7)%60)}})
 				}
+			}
+			// histories in which a partition without quorum on either side heals, or a
+			// validator catches up after a long silence: rounds then receive many
+			// events at once and frames of a hundred events and more travel
+			for i := 0; i < count/6; i++ {
+				cs = append(cs, CaseSpec{Kind: "frames", P: map[string]int64{"n": int64(3 + i%2), "steps": int64(380 + 40*(i%3)), "joins": 0}, S: map[string]string{"shape": []string{"partition", "lag", "partition", "silent"}[i%4]}})
 			}
 			for i := 0; i < count/4; i++ {
 				cs = append(cs, CaseSpec{Kind: "peersets", P: map[string]int64{"n": int64(1 + i%7)}})
